@@ -3,6 +3,7 @@
 package scen
 
 import (
+	"bytes"
 	"encoding/hex"
 	"errors"
 	"fmt"
@@ -25,8 +26,35 @@ func devDIB(ia uint16) []byte {
 	b := make([]byte, 54)
 	b[0], b[1], b[2], b[3] = 54, 1, 2, 0
 	b[4], b[5] = byte(ia>>8), byte(ia)
-	copy(b[24:], "dev")
+	copy(b[24:], devName(ia))
 	return b
+}
+
+// devName: the friendly name of responder ia as it stands on the wire (ISO 8859-1, zero padded to
+// 30 octets): plain ASCII, names with one and with several characters above 0x7F, and 29 of them.
+func devName(ia uint16) []byte {
+	switch ia % 4 {
+	case 1:
+		return []byte("B\xfcro")
+	case 2:
+		return []byte("K\xfcche S\xfcd-\xd6st")
+	case 3:
+		return bytes.Repeat([]byte{0xe9}, 29)
+	}
+	return []byte("dev")
+}
+
+// devContent renders what a response of responder ia says about it: name and service families.
+func devContent(name string, fams []knxnet.ServiceFamily) string {
+	return fmt.Sprintf("name=%q families=%v", name, fams)
+}
+
+func wantContent(ia uint16) string {
+	var r []rune
+	for _, c := range devName(ia) {
+		r = append(r, rune(c))
+	}
+	return devContent(string(r), []knxnet.ServiceFamily{{Type: 2, Version: 1}})
 }
 
 func frame(sid uint16, body ...[]byte) []byte {
@@ -91,6 +119,7 @@ type CallRet struct {
 	Timeout     mc.Duration
 	What        string
 	IAs         []uint16
+	Content     []string // per returned response: friendly name and service families
 	Err         string
 	T0          mc.Duration
 	Closed      bool
@@ -197,6 +226,7 @@ func c20Describe(slots int) func() {
 		ret := CallRet{WriteFailed: writeFails, Timeout: timeout, What: fmt.Sprintf("Describe(timeout=%v)", timeout), Err: errStr(err), T0: t0}
 		if res != nil {
 			ret.IAs = []uint16{uint16(res.DeviceHardware.Source)}
+			ret.Content = []string{devContent(res.DeviceHardware.FriendlyName, res.SupportedServices.Families)}
 			ret.Further = furtherHex(res)
 		}
 		if ep != nil {
@@ -271,6 +301,7 @@ func c20Discover(slots int, flat int) func() {
 		ret := CallRet{WriteFailed: writeFails, Timeout: timeout, What: fmt.Sprintf("Discover(timeout=%v)", timeout), Err: errStr(err), T0: t0}
 		for _, r := range res {
 			ret.IAs = append(ret.IAs, uint16(r.DescriptionB.DeviceHardware.Source))
+			ret.Content = append(ret.Content, devContent(r.DescriptionB.DeviceHardware.FriendlyName, r.DescriptionB.SupportedServices.Families))
 		}
 		if ep != nil {
 			ret.Closed = ep.Closed
@@ -348,6 +379,14 @@ func c20Oracle(discover bool) func(tr *mc.Trace) []h.Violation {
 		}
 		if ret.Err != "" {
 			bad("error", "%s returned error %q (%s)", ret.What, ret.Err, hist)
+		}
+		for i, ia := range ret.IAs {
+			// "exactly the search responses received" / "the first description response received":
+			// the response of responder ia is the one that responder sent
+			if i < len(ret.Content) && ret.Content[i] != wantContent(ia) {
+				bad("response-content", "%s returned, as the response of device %#x: %s; that device answered: %s", ret.What, ia, ret.Content[i], wantContent(ia))
+				break
+			}
 		}
 		if !discover && len(ret.IAs) == 1 {
 			want := hex.EncodeToString(append([]byte{0xFE}, furtherDIB(ret.IAs[0])[2:]...))
